@@ -292,6 +292,7 @@ func cmdConc(kind string, args []string) {
 	distinct := map[string]bool{}
 	complete := 0
 	rejects := 0
+	abort := false
 	for _, p := range progs {
 		var cases []*concCase
 		var setupImpl []string
@@ -302,7 +303,16 @@ func cmdConc(kind string, args []string) {
 		}
 		nops := len(opLines)
 		opts := p.Opts()
+		stalls := 0
 		visit := func(run *conc.Run) bool {
+			if run.Stalled != "" {
+				stalls++
+				rep.Extra["stalled_interleavings"]++
+				if stalls >= 2 {
+					// every stall costs a timeout; two are enough to report: stop exploring
+					abort = true
+				}
+			}
 			if run.Infeasible {
 				rep.Extra["infeasible_replays_discarded"]++
 				return true
@@ -323,7 +333,7 @@ func cmdConc(kind string, args []string) {
 			c.lines = append(c.lines, run.Lines...)
 			c.impl = append(c.impl, run.Impl...)
 			cases = append(cases, c)
-			return true
+			return stalls < 2
 		}
 		var runs int
 		var done bool
@@ -429,7 +439,7 @@ func cmdConc(kind string, args []string) {
 				}
 			}
 		}
-		if rejects >= 2 || len(rep.Mismatches) >= 40 {
+		if rejects >= 2 || len(rep.Mismatches) >= 40 || abort {
 			break
 		}
 	}
